@@ -373,6 +373,9 @@ inductive RAct
   | recv (t : Nat)      -- thread t unmarshals one message
   | drop (t : Nat)      -- thread t's heap stops referencing it
   | sweep (t : Nat)     -- thread t's collector sweeps its table
+  /-- thread t, which reaches the object, uses its memory: ev/acquire-lock, ev/release-lock, ev/acquire-rlock .. on a lock
+      (janet_os_mutex_lock on the OS primitive INSIDE the abstract), any channel operation on a thread channel -/
+  | use (t : Nat)
   deriving DecidableEq, Repr
 
 def rstep (cfg : RCfg) (s : RSt) : RAct → RSt
@@ -391,6 +394,7 @@ def rstep (cfg : RCfg) (s : RSt) : RAct → RSt
       { s with transit := s.transit - 1, holds := t :: s.holds, reach := fun u => u == t || s.reach u,
                useAfterFree := s.useAfterFree || s.freed }
   | .drop t => { s with reach := fun u => if u = t then false else s.reach u }
+  | .use t => if s.reach t = true then { s with useAfterFree := s.useAfterFree || s.freed } else s
   | .sweep t =>
     if t ∈ s.holds ∧ s.reach t = false then
       { s with holds := s.holds.erase t, refcount := s.refcount - 1, freed := s.freed || (s.refcount - 1 == 0) }
